@@ -96,7 +96,7 @@ func (mv *MessageView) SnapshotRequest(req *http.Request) error {
 		fmt.Fprintf(buf, "Content-Length: %d\r\n", req.ContentLength)
 	}
 
-	mv.compress = req.Header.Get("Content-Encoding")
+	mv.compress = contentCoding(req.Header.Get("Content-Encoding"))
 
 	req.Header.WriteSubset(buf, map[string]bool{
 		"Host":              true,
@@ -178,7 +178,7 @@ func (mv *MessageView) SnapshotResponse(res *http.Response) error {
 		fmt.Fprintf(buf, "Content-Length: %d\r\n", res.ContentLength)
 	}
 
-	mv.compress = res.Header.Get("Content-Encoding")
+	mv.compress = contentCoding(res.Header.Get("Content-Encoding"))
 	// Do not uncompress if we have don't have the full contents.
 	if res.StatusCode == http.StatusNoContent || res.StatusCode == http.StatusPartialContent {
 		mv.compress = ""
@@ -332,6 +332,17 @@ func (mv *MessageView) matchContentType(mct string) bool {
 	}
 
 	return false
+}
+
+// contentCoding returns the name of a content coding in the form BodyReader
+// knows it by: names are case-insensitive, and "x-gzip" is to be treated as
+// "gzip" (RFC 7230, section 4.2.3).
+func contentCoding(v string) string {
+	v = strings.ToLower(strings.TrimSpace(v))
+	if v == "x-gzip" {
+		v = "gzip"
+	}
+	return v
 }
 
 // brokenBody replays what was read of a body that ended with an error, and then
